@@ -13,7 +13,7 @@ def run(chk):
         cases = macro.enumerate_paths(chk, fam, L, 5 if fam == "tnest" else 4, invariants=("UniquePerLoc", "BestAgree", "PassBound", "GrowthBound"))
         # in-model: TempsFresh as an action property on the same enumeration is implied by the name scheme (n, macro, pass); the
         # binding to the code is the bijection requirement of the replay, in four source layouts
-        for layout in ("lines", "files", "oneline", "longname"):
+        for layout in ("lines", "files", "oneline", "longname", "bodyinc"):
             total += macro.replay(chk, th, fam, macros, cases, "c10:" + layout, layout=layout)
         chk.add("rewriting_paths", len(cases))
     # a long path (one expansion per pass, 300 passes): temporaries of passes that lie more than 256 apart are distinct too
@@ -42,8 +42,8 @@ def run(chk):
     chk.cov["exhaustive"] = True
     chk.cov["rule"] = ("TheoMacro names a temporary by (n, macro, pass); every rewriting path of the families 'temps' (a macro with #0/#1 used "
                        "inside its own <P> slot and twice in a sequence) and 'temps2' (two macros of equal priority with the same temporary "
-                       "numbers) over all streams of <= 5 (thorough 6) tokens is replayed with budgets 1..4 in four layouts (one definition per "
-                       "line, one file per macro with equal line numbers, all definitions on one line, a 77-character file name); the map real "
+                       "numbers) over all streams of <= 5 (thorough 6) tokens is replayed with budgets 1..4 in five layouts (one definition per "
+                       "line, one file per macro with equal line numbers, all definitions on one line, a 77-character file name, the second half of every body in an included file); the map real "
                        "spelling -> specification name must be a bijection on every path and no spelling may be a legal identifier; 300 sequential uses (passes more than 256 apart) own 300 distinct temporaries; "
                        "macro-heavy generated programs (nested IF-THEN-ELSE / REPEAT) end to end through TheoSem")
     log("C10: %d stream/budget cases compared, %d end-to-end programs accepted" % (total, acc))
